@@ -33,4 +33,12 @@ TEXT["C08"] = {
     "note": _TB + "Third-party back ends and the OS file system are corresponded only; one open finding (stale empty directories in object_store/opendal local-fs listings) is listed in known_findings.jsonl.",
     "technique": "Lean 4 refinement proof to an ordered-map spec + differential operation sequences on 11 stores",
 }
+TEXT["C06"] = {
+    "level": "Machine-checked proof that a chunk cache of either kind (decoded / encoded), under ANY eviction policy that never invents entries (LRU by count or bytes at any capacity "
+             "including 0 and 1, deferred eviction, unbounded) and from any coherent starting cache, returns for every sequence of reads exactly the uncached read, never caches a failed read, "
+             "and stays coherent; route agreement of the uncached routes is C01.read_after_history. All routes of the implementation (typed/ndarray forms, partial decoder, sharded-extension "
+             "methods with their shard-index cache, 8 cache flavours x capacities) are tied to the model's plain read of the same region by differential read sequences with repeats.",
+    "note": _TB + "moka/lru internals abstracted to get/insert/evict-some; thread-local caches are exercised on the calling thread.",
+    "technique": "Lean 4 invariant proof over a cache state machine with arbitrary eviction + differential read sequences over all routes",
+}
 NOT_YET = {}
